@@ -103,3 +103,100 @@ Theorem C13_cleanup_v0_uaf_refuted :
   forall a atvs stored, cleanup_tooold_v0 (a :: atvs) stored = Uaf.
 Proof. exact cleanup_v0_uaf_refuted_lemma. Qed.
 Print Assumptions C13_cleanup_v0_uaf_refuted.
+
+(** ** the relations structure (three payload types): relations_, vbkblocks_, stored_vtbs_/stored_atvs_ and the three
+    in-flight maps; every tree verdict is an input of the step (RelDefs) *)
+From VB Require Import Mempool.RelDefs Mempool.RelProofs Mempool.RelMore.
+
+(** EVERY operation sequence (no caller contract): the relations_.size() == vbkblocks_.size() assertion of cleanUp
+    never fires; one relation per connected VBK block and vice versa; a VTB / ATV is in the connected map iff a
+    relation lists it, and it is listed by the relation of its containing block / block of proof; no key twice *)
+Theorem C13_relations_consistent :
+  forall (bop cont : N -> N) ops,
+    exists s, rrun bop cont mp0 ops = ROk s /\
+      NoDup (map hdr (rels s)) /\ NoDup (vbks s) /\ NoDup (svtbs s) /\ NoDup (satvs s) /\
+      NoDup (fb s) /\ NoDup (fv s) /\ NoDup (fa s) /\
+      (forall b, In b (vbks s) <-> exists r, In r (rels s) /\ hdr r = b) /\
+      (forall t, In t (svtbs s) <-> exists r, In r (rels s) /\ In t (rvtbs r)) /\
+      (forall a, In a (satvs s) <-> exists r, In r (rels s) /\ In a (ratvs r)) /\
+      (forall r t, In r (rels s) -> In t (rvtbs r) -> cont t = hdr r) /\
+      (forall r a, In r (rels s) -> In a (ratvs r) -> bop a = hdr r).
+Proof. exact relations_consistent_lemma. Qed.
+Print Assumptions C13_relations_consistent.
+
+(** under the caller contract (an ATV / VTB is submitted from outside only while it is not connected; the
+    resubmissions of tryConnectPayloads are shown to respect it): connected and in flight are disjoint, no relation
+    lists an id twice, no id is listed by two relations *)
+Theorem C13_relations_disjoint :
+  forall (bop cont : N -> N) ops,
+    rcontract bop cont mp0 ops ->
+    exists s, rrun bop cont mp0 ops = ROk s /\
+      (forall a, ~ (In a (satvs s) /\ In a (fa s))) /\
+      (forall t, ~ (In t (svtbs s) /\ In t (fv s))) /\
+      (forall r, In r (rels s) -> NoDup (rvtbs r) /\ NoDup (ratvs r)) /\
+      (forall r1 r2 x, In r1 (rels s) -> In r2 (rels s) ->
+         (In x (rvtbs r1) /\ In x (rvtbs r2)) \/ (In x (ratvs r1) /\ In x (ratvs r2)) -> r1 = r2).
+Proof. exact relations_disjoint_lemma. Qed.
+Print Assumptions C13_relations_disjoint.
+
+(** cleanUp removes exactly what the tree marks: contextually invalid VTBs; contextually invalid ATVs and every ATV of
+    a too old block of proof; contextually invalid in-flight payloads; the relations (and VBK blocks) [cl_rel] erases
+    (too old without VTBs, or in the stable tree and empty after the sweep). Everything else stays, in place *)
+Theorem C13_cleanUp_exact :
+  forall (bop cont : N -> N) o s,
+    RInv bop cont s ->
+    exists s', cleanUp o s = ROk s' /\
+      svtbs s' = filter (validV o) (svtbs s) /\
+      satvs s' = filter (fun a => andb (validA o a) (negb (tooOld o (bop a)))) (satvs s) /\
+      fb s' = filter (validB o) (fb s) /\ fv s' = filter (validV o) (fv s) /\ fa s' = filter (validA o) (fa s) /\
+      (forall b, In b (vbks s') <-> exists r, In r (rels s) /\ hdr r = b /\ cl_rel o r <> None) /\
+      (forall r', In r' (rels s') <-> exists r, In r (rels s) /\ cl_rel o r = Some r').
+Proof. exact cleanUp_exact_lemma. Qed.
+Print Assumptions C13_cleanUp_exact.
+
+(** removeAll(PopData) as coded takes nothing out of the in-flight maps: afterwards an ATV / VTB of the PopData is
+    known only if it was in flight before AND passes the contextual check of the cleanUp inside removeAll (once the
+    block carrying the PopData is on the active chain that check answers "duplicate"); a context block of the PopData
+    survives the first loop only with a relation that still lists payloads *)
+Theorem C13_removeAll_forgets :
+  forall (bop cont : N -> N) pb pv pa o c s,
+    RInv bop cont s -> DInv s ->
+    exists s', removeAll bop cont pb pv pa o c s = ROk s' /\
+      (forall a, In a pa -> KA s' a -> In a (fa s) /\ validA o a = true) /\
+      (forall t, In t pv -> KV s' t -> In t (fv s) /\ validV o t = true) /\
+      (forall b, In b pb -> In b (vbks (dropPop pb pv pa s)) ->
+         exists r, In r (rels (dropPop pb pv pa s)) /\ hdr r = b /\ (rvtbs r <> [] \/ ratvs r <> [])).
+Proof. exact removeAll_forgets_lemma. Qed.
+Print Assumptions C13_removeAll_forgets.
+
+(** nothing reappears without a submit (three-typed version of C13_removed_stay_removed): an ATV / VTB known after an
+    operation was known before it or is the payload that operation submits - clear, cleanUp, removeAll and
+    generatePopData included; after clear every container is empty *)
+Theorem C13_no_resurrection :
+  forall (bop cont : N -> N) s op s',
+    RInv bop cont s -> DInv s -> rstep bop cont s op = ROk s' ->
+    (forall a, KA s' a -> KA s a \/ exists v, op = SubA v a) /\
+    (forall t, KV s' t -> KV s t \/ exists v, op = SubV v t) /\
+    (op = Clr -> s' = mp0).
+Proof. exact no_resurrection_lemma. Qed.
+Print Assumptions C13_no_resurrection.
+
+(** the "never both" of the property does NOT hold for VBK blocks, contract or not: getOrPutVbkRelation ignores the
+    in-flight blocks, so a block waiting in flight becomes a relation header when an ATV carrying it connects
+    (connected and in flight at once); the next connect pass erases the in-flight entry *)
+Theorem C13_vbk_header_both_refuted :
+  let ops := [SubB Stateful false 7; SubA Fine 1] in
+  rcontract ex_bop ex_cont mp0 ops /\
+  (exists s, rrun ex_bop ex_cont mp0 ops = ROk s /\ In 7 (vbks s) /\ In 7 (fb s)) /\
+  (exists s, rrun ex_bop ex_cont mp0 (ops ++ [Gen all_fine all_valid]) = ROk s /\ In 7 (vbks s) /\ fb s = []).
+Proof. exact vbk_header_both_example. Qed.
+Print Assumptions C13_vbk_header_both_refuted.
+
+(** the caller contract is needed for C13_relations_disjoint: a connected ATV submitted again is listed twice by its
+    relation (the std::set falls back on the shared_ptr address), and connected AND in flight when the second submit
+    fails statefully *)
+Theorem C13_resubmit_connected_refuted :
+  (exists s, rrun ex_bop ex_cont mp0 [SubA Fine 1; SubA Fine 1] = ROk s /\ rels s = [mkr 7 [] [1; 1]]) /\
+  (exists s, rrun ex_bop ex_cont mp0 [SubA Fine 1; SubA Stateful 1] = ROk s /\ In 1 (satvs s) /\ In 1 (fa s)).
+Proof. exact resubmit_example. Qed.
+Print Assumptions C13_resubmit_connected_refuted.
